@@ -1054,6 +1054,23 @@ fn main() {
             }
             Outcome::Conflict(c) => report(&mut st, json!({"key": "probe-F-9-conflict", "c": c})),
         }
+        // the sharp limit (Coq: Fits4.fits4_8188 / fits4_8189) and an id_range_offset overflow inside from_mappings;
+        // the panicking ones also go to the model (fits4 <-> real panic sites)
+        let ro_overflow: Pairs = (0..32800u32).map(|i| (i, 40000 - i)).chain((0..3u32).map(|i| (40000 + i, 9 - i))).collect();
+        for (name, input) in [("isolated_8189", (0..8189u32).map(|i| (0x100 + 3 * i, 1 + i)).collect::<Pairs>()), ("range_offset_overflow", ro_overflow)] {
+            st.evaluations += 1;
+            let out = build(&input, 40001);
+            match &out {
+                Outcome::Built(_) => report(&mut st, json!({"key": format!("probe-{}-built", name)})),
+                Outcome::Panic(p) | Outcome::DumpPanic(p) => {
+                    st.count(&format!("probe.{}.{}", name, if matches!(out, Outcome::Panic(_)) { "panic_in_from_mappings" } else { "panic_in_dump_table" }));
+                    report(&mut st, json!({"key": "F-9:cmap4-length-overflow-panic", "what": format!("{}: valid BMP mapping beyond the format-4 limits panics instead of returning an error", name),
+                                           "pairs": input.len(), "panic": p}));
+                }
+                Outcome::Conflict(c) => report(&mut st, json!({"key": format!("probe-{}-conflict", name), "c": c})),
+            }
+            cw.push(format!("CBuild {} {}", coq_pairs(&input), impl_outcome_term(&input, &out, &mut rng)));
+        }
         // the largest isolated-point mapping that fits: 8188 segments + sentinel = 16 + 8*8189 = 65528 bytes
         let input: Pairs = (0..8188u32).map(|i| (0x100 + 3 * i, 1 + i)).collect();
         st.evaluations += 1;
